@@ -24,8 +24,8 @@ TPrepare ==
 
 TAdd ==
   /\ IsEvent("Add")
-  /\ IF stype = "undef" THEN ev.err /\ AddRecordUnprepared
-     ELSE IF ev.valued THEN ev.err /\ AddRecordRefused
+  /\ IF stype = "undef" THEN ev.err /\ AddRecordUnprepared /\ ev.newlen = -1 /\ ev.newbuf = << >>    \* nothing was added
+     ELSE IF ev.valued THEN ev.err /\ AddRecordRefused /\ ev.newlen = -1 /\ ev.newbuf = << >>
      ELSE /\ ~ev.err
           /\ AddRecord(ev.path, ev.id, ev.fields, ev.vals)
           /\ ev.newbuf = RecBytes(recs'[Len(recs')])       \* record buffer is exactly ...
